@@ -42,6 +42,10 @@ def ensure_engine_files(d, chars, scale=8.0):
                 dot = torch.einsum('kc,ncw->nkw', self.cols, m)
                 sq = (self.cols * self.cols).sum(dim=1).unsqueeze(0).unsqueeze(2)
                 out = self.scale * (2.0 * dot - sq)                  # N,K+1,T ; the last class is the blank
+                # a little context, as every real line recogniser has: the average colour of the whole (padded)
+                # input row nudges every frame towards the classes that dominate the line
+                ctx = torch.einsum('kc,nc->nk', self.cols, m.mean(dim=2))
+                out = out + self.scale * 0.4 * ctx.unsqueeze(2)
                 # the blank is 'no colour': black (padding, page background) as well as white paper
                 chroma = m.max(dim=1).values - m.min(dim=1).values  # N,T
                 blank = self.scale * (1.5 - 3.0 * chroma)
